@@ -19,6 +19,8 @@ pub enum MOp {
     SetTime { dt: u64 },
     Enable,
     Disable,
+    /// trading flag of one asset switched through `get_order_book_mut(a)`
+    AssetToggle { a: usize, on: bool },
     ResetTv,
     Reload { mode: u8 },
 }
@@ -137,6 +139,16 @@ impl<const A: usize, const L: usize> World<A, L> {
                 }
                 Ok((Ret::Unit, Ret::Unit))
             }
+            MOp::AssetToggle { a, on } => {
+                if *on {
+                    self.market.get_order_book_mut(*a).enable_trading();
+                    self.shadows[*a].enable_trading();
+                } else {
+                    self.market.get_order_book_mut(*a).disable_trading();
+                    self.shadows[*a].disable_trading();
+                }
+                Ok((Ret::Unit, Ret::Unit))
+            }
             MOp::ResetTv => {
                 self.market.reset_trade_vols();
                 for b in self.shadows.iter_mut() {
@@ -252,6 +264,11 @@ pub struct MCfg {
     pub create_place: bool,
     pub offgrid: bool,
     pub two_vols: bool,
+    /// per-asset trading toggles through get_order_book_mut, and both market-level toggles always offered
+    pub asset_toggles: bool,
+    /// zero-volume placements and modifications (an unusual but accepted input; the oracle is
+    /// the stand-alone book of the same library, so no semantics of our own are imposed)
+    pub zero_vols: bool,
 }
 
 fn alphabet<const A: usize>(cfg: &MCfg, shadows: &[Snap], trading: bool) -> Vec<MStep> {
@@ -268,6 +285,9 @@ fn alphabet<const A: usize>(cfg: &MCfg, shadows: &[Snap], trading: bool) -> Vec<
                 }
             }
             v.push(MOp::Asset { a, op: Op::Market { bid, vol: 3 } });
+            if cfg.zero_vols {
+                v.push(MOp::Asset { a, op: Op::Limit { bid, price: prices[if bid { 0 } else { 1 }], vol: 0 } });
+            }
         }
         let n = shadows[a].orders.len();
         for id in 0..n {
@@ -277,6 +297,9 @@ fn alphabet<const A: usize>(cfg: &MCfg, shadows: &[Snap], trading: bool) -> Vec<
                     v.push(MOp::Asset { a, op: Op::Modify { id, price: Some(prices[1]), vol: None, ev } });
                     v.push(MOp::Asset { a, op: Op::Modify { id, price: None, vol: Some(1), ev } });
                     v.push(MOp::Asset { a, op: Op::Modify { id, price: Some(prices[0]), vol: Some(3), ev } });
+                    if cfg.zero_vols {
+                        v.push(MOp::Asset { a, op: Op::Modify { id, price: None, vol: Some(0), ev } });
+                    }
                 }
             }
         }
@@ -297,8 +320,17 @@ fn alphabet<const A: usize>(cfg: &MCfg, shadows: &[Snap], trading: bool) -> Vec<
             v.push(MOp::Asset { a, op: Op::BadCreate { bid: false, price: 3 * tick - 1, vol: 1, place: false } });
         }
     }
-    if cfg.toggles {
+    if cfg.asset_toggles {
+        v.push(MOp::Disable);
+        v.push(MOp::Enable);
+        for a in 0..A {
+            v.push(MOp::AssetToggle { a, on: false });
+            v.push(MOp::AssetToggle { a, on: true });
+        }
+    } else if cfg.toggles {
         v.push(if trading { MOp::Disable } else { MOp::Enable });
+    }
+    if cfg.toggles {
         v.push(MOp::ResetTv);
         v.push(MOp::SetTime { dt: 2 });
     }
@@ -358,6 +390,7 @@ fn kind(op: &MOp) -> &'static str {
         MOp::SetTime { .. } => "set-time",
         MOp::Enable => "enable",
         MOp::Disable => "disable",
+        MOp::AssetToggle { .. } => "asset-toggle",
         MOp::ResetTv => "reset-trade-vols",
         MOp::Reload { .. } => "reload",
     }
@@ -520,22 +553,34 @@ fn absorb(out: &mut Outcome, label: &str, assets: usize, levels: usize, depth: u
 
 /// C14, market level
 pub fn c14_market_part(out: &mut Outcome, t: bool) {
-    let full = MCfg { depth: if t { 5 } else { 4 }, reload_modes: vec![], events: false, toggles: true, modify: true, create_place: false, offgrid: true, two_vols: false };
+    let full = MCfg { depth: if t { 5 } else { 4 }, reload_modes: vec![], events: false, toggles: true, modify: true, create_place: false, offgrid: true, two_vols: false, asset_toggles: false, zero_vols: false };
     absorb(out, "Market<2>: ops x assets, modify, toggles, off-grid", 2, 3, full.depth, run_market::<2, 3>(&full), "market");
-    let ev = MCfg { depth: if t { 4 } else { 3 }, reload_modes: vec![], events: true, toggles: true, modify: true, create_place: true, offgrid: true, two_vols: true };
+    let ev = MCfg { depth: if t { 4 } else { 3 }, reload_modes: vec![], events: true, toggles: true, modify: true, create_place: true, offgrid: true, two_vols: true, asset_toggles: false, zero_vols: false };
     absorb(out, "Market<2>: + event route, create/place, two volumes", 2, 3, ev.depth, run_market::<2, 3>(&ev), "market");
-    let a1 = MCfg { depth: if t { 5 } else { 4 }, reload_modes: vec![], events: false, toggles: true, modify: true, create_place: true, offgrid: false, two_vols: true };
+    let a1 = MCfg { depth: if t { 5 } else { 4 }, reload_modes: vec![], events: false, toggles: true, modify: true, create_place: true, offgrid: false, two_vols: true, asset_toggles: false, zero_vols: false };
     absorb(out, "Market<1>", 1, 3, a1.depth, run_market::<1, 3>(&a1), "market");
-    let a3 = MCfg { depth: if t { 5 } else { 4 }, reload_modes: vec![], events: false, toggles: true, modify: false, create_place: false, offgrid: true, two_vols: false };
+    let a3 = MCfg { depth: if t { 5 } else { 4 }, reload_modes: vec![], events: false, toggles: true, modify: false, create_place: false, offgrid: true, two_vols: false, asset_toggles: false, zero_vols: false };
     absorb(out, "Market<3>: three ticks", 3, 2, a3.depth, run_market::<3, 2>(&a3), "market");
-    let a4 = MCfg { depth: if t { 4 } else { 3 }, reload_modes: vec![], events: false, toggles: true, modify: true, create_place: false, offgrid: true, two_vols: false };
+    let z = MCfg { depth: if t { 5 } else { 4 }, reload_modes: vec![], events: false, toggles: false, modify: true, create_place: false, offgrid: false, two_vols: false, asset_toggles: false, zero_vols: true };
+    absorb(out, "Market<2>: zero-volume placements and modifications", 2, 3, z.depth, run_market::<2, 3>(&z), "market");
+    let at = MCfg { depth: if t { 4 } else { 3 }, reload_modes: vec![], events: false, toggles: true, modify: true, create_place: false, offgrid: false, two_vols: false, asset_toggles: true, zero_vols: false };
+    absorb(out, "Market<3>: per-asset toggles through get_order_book_mut", 3, 2, at.depth, run_market::<3, 2>(&at), "market");
+    let a4 = MCfg { depth: if t { 4 } else { 3 }, reload_modes: vec![], events: false, toggles: true, modify: true, create_place: false, offgrid: true, two_vols: false, asset_toggles: false, zero_vols: false };
     absorb(out, "Market<4>: four ticks", 4, 3, a4.depth, run_market::<4, 3>(&a4), "market");
+}
+
+/// C13, market level: market-wide and per-asset trading toggles against stand-alone books
+pub fn c13_market_part(out: &mut Outcome, t: bool) {
+    let c = MCfg { depth: if t { 5 } else { 4 }, reload_modes: vec![], events: false, toggles: false, modify: true, create_place: false, offgrid: false, two_vols: false, asset_toggles: true, zero_vols: false };
+    absorb(out, "Market<2,3>: market-wide and per-asset toggles at every point", 2, 3, c.depth, run_market::<2, 3>(&c), "market");
+    let c = MCfg { depth: if t { 4 } else { 3 }, reload_modes: vec![], events: false, toggles: false, modify: false, create_place: false, offgrid: false, two_vols: false, asset_toggles: true, zero_vols: false };
+    absorb(out, "Market<3,2>: market-wide and per-asset toggles", 3, 2, c.depth, run_market::<3, 2>(&c), "market");
 }
 
 /// C07, multi-asset snapshots: reload as an operation, shadows are never reloaded
 pub fn c07_market_part(out: &mut Outcome, t: bool) {
-    let c2 = MCfg { depth: if t { 5 } else { 4 }, reload_modes: vec![0, 1, 2], events: false, toggles: true, modify: true, create_place: true, offgrid: false, two_vols: false };
+    let c2 = MCfg { depth: if t { 5 } else { 4 }, reload_modes: vec![0, 1, 2], events: false, toggles: true, modify: true, create_place: true, offgrid: false, two_vols: false, asset_toggles: false, zero_vols: false };
     absorb(out, "Market<2,3>: reload (memory/compact/pretty) as an operation", 2, 3, c2.depth, run_market::<2, 3>(&c2), "market-reload");
-    let c3 = MCfg { depth: if t { 4 } else { 3 }, reload_modes: vec![0, 2], events: false, toggles: true, modify: true, create_place: false, offgrid: false, two_vols: false };
+    let c3 = MCfg { depth: if t { 4 } else { 3 }, reload_modes: vec![0, 2], events: false, toggles: true, modify: true, create_place: false, offgrid: false, two_vols: false, asset_toggles: false, zero_vols: false };
     absorb(out, "Market<3,2>: reload as an operation", 3, 2, c3.depth, run_market::<3, 2>(&c3), "market-reload");
 }
